@@ -141,7 +141,8 @@ def main(argv):
     _CTX.update(chk=chk, plain=plain, drv=drv, disk=disk)
     c09._CTX.update(chk=chk, plain=plain, drv=drv, disk=disk)
     quick = chk.tier == "quick"
-    scripts = [("single-small", c09.script_single("small")), ("single-bigmeta", c09.script_single("bigmeta"))]
+    scripts = [("single-small", c09.script_single("small")), ("single-bigmeta", c09.script_single("bigmeta")),
+               ("single-nearcap", c09.script_single("nearcap"))]
     if not quick:
         scripts.append(("single-autoflush", c09.script_single("autoflush")))
         al = rt.align_script(drv, c09.script_single("small"), 1024, chk.scratch, inline=True)
@@ -179,7 +180,7 @@ def main(argv):
                     for e in errs:
                         work.append((name, script, mode, sc, k, e))
             npoints["%s/%s" % (name, mode)] = len(pts)
-            for seed in range(1, 4 if quick else 20):
+            for seed in range(1, 6 if quick else 30):
                 work.append((name, script, mode, "SHORTWRITE", seed, "partial"))
     fired = nofire = 0
     outcomes = {}
